@@ -246,53 +246,45 @@ func (g *Gen) builtin(fn *ssa.Function, st *State, bi *ssa.Builtin, call *ssa.Ca
 func (g *Gen) stdSpecial(st *State, name string, call *ssa.CallCommon, result ssa.Value, pos token.Pos) bool {
 	switch name {
 	case "(*bytes.Buffer).WriteByte", "(*strings.Builder).WriteByte":
-		p := g.val(st, call.Args[0])
-		cur, ok := g.bufGet(st, p)
+		r, ok := bufRef(g.val(st, call.Args[0]))
 		if !ok {
 			return false
 		}
-		c := g.val(st, call.Args[1])
-		g.bufSet(st, p, Val{T: g.def("buf", "(Array Int Int)", fmt.Sprintf("(store %s (+ %s %s) %s)", g.arr(st, cur), cur.Off, cur.Len, c.T)), Len: g.def("bl", "Int", fmt.Sprintf("(+ %s 1)", cur.Len)), Off: cur.Off, Kind: "slice"})
+		g.bufAppendByte(st, r, g.val(st, call.Args[1]).T)
 		g.setResult(result, Val{T: "0", Kind: "err"})
 		return true
 	case "(*bytes.Buffer).WriteString", "(*strings.Builder).WriteString", "(*bytes.Buffer).Write", "(*strings.Builder).Write":
-		p := g.val(st, call.Args[0])
-		cur, ok := g.bufGet(st, p)
-		if !ok {
-			return false
-		}
+		r, ok := bufRef(g.val(st, call.Args[0]))
 		s := g.val(st, call.Args[1])
-		if s.Len == "" {
+		if !ok || s.Len == "" {
 			return false
 		}
-		g.bufSet(st, p, g.appendSeq(st, cur, s))
+		g.bufAppendSeq(st, r, s)
 		g.setResult(result, Val{Kind: "tuple", Tup: []Val{intV(s.Len), {T: "0", Kind: "err"}}})
 		return true
 	case "(*bytes.Buffer).Bytes":
-		cur, ok := g.bufGet(st, g.val(st, call.Args[0]))
+		r, ok := bufRef(g.val(st, call.Args[0]))
 		if !ok {
 			return false
 		}
-		r := g.freshRef(st)
-		g.setHs(st, r, g.arr(st, cur))
-		g.setResult(result, Val{Ref: r, Len: cur.Len, Off: cur.Off, Kind: "slice"})
+		g.setResult(result, Val{Ref: r, Len: g.bufLen(st, r), Off: "0", Kind: "slice"})
 		return true
 	case "(*bytes.Buffer).String", "(*strings.Builder).String":
-		cur, ok := g.bufGet(st, g.val(st, call.Args[0]))
+		r, ok := bufRef(g.val(st, call.Args[0]))
 		if !ok || g.opaqueStr {
 			return false
 		}
-		g.setResult(result, Val{T: g.arr(st, cur), Len: cur.Len, Off: cur.Off, Kind: "str"})
+		g.setResult(result, Val{T: fmt.Sprintf("(select %s %s)", g.hsGet(st), r), Len: g.bufLen(st, r), Off: "0", Kind: "str"})
 		return true
 	case "(*bytes.Buffer).Len", "(*strings.Builder).Len":
-		cur, ok := g.bufGet(st, g.val(st, call.Args[0]))
+		r, ok := bufRef(g.val(st, call.Args[0]))
 		if !ok {
 			return false
 		}
-		g.setResult(result, intV(cur.Len))
+		g.setResult(result, intV(g.bufLen(st, r)))
 		return true
 	case "(*strings.Builder).Grow", "(*bytes.Buffer).Grow":
-		_, ok := g.bufGet(st, g.val(st, call.Args[0]))
+		_, ok := bufRef(g.val(st, call.Args[0]))
 		return ok
 	case "errors.Join":
 		a := g.val(st, call.Args[0])
